@@ -32,14 +32,18 @@ impl EdgeHeading {
     }
     /// Compute the angle between this edge and some destination edge.
     pub fn bearing_to_destination(&self, destination: &EdgeHeading) -> i16 {
-        let angle = destination.start_heading() - self.end_heading();
-        if angle > 180 {
+        // any i16 loads as a heading: subtract in i32, where the difference cannot overflow
+        let angle = destination.start_heading() as i32 - self.end_heading() as i32;
+        let wrapped = if angle > 180 {
             angle - 360
         } else if angle < -180 {
             angle + 360
         } else {
             angle
-        }
+        };
+        // headings outside [0, 360) can leave the angle outside [-180, 180]: it stays
+        // outside, where Turn::from_angle refuses it
+        wrapped.clamp(i16::MIN as i32, i16::MAX as i32) as i16
     }
 }
 
